@@ -275,6 +275,8 @@ func variadicOperands(v ssa.Value) []ssa.Value {
 						val := st.Val
 						if mi, ok := val.(*ssa.MakeInterface); ok {
 							val = mi.X
+						} else if ci, ok := val.(*ssa.ChangeInterface); ok {
+							val = ci.X
 						}
 						byIdx[idx] = val
 						if idx > maxIdx {
